@@ -157,30 +157,35 @@ inductive Op (κ : Type) where
   | group (opt : Nat) (positions : List Nat) (keys : List κ)
   deriving Repr
 
-/-- `toolz.groupby(key, enumerate(operands))`: groups in first-seen order, members in original order -/
-def groupby {κ : Type} : List (Nat × Nat × κ) → List (Nat × List (Nat × κ)) → List (Nat × List (Nat × κ))
-  | [], acc => acc
-  | (i, opt, k) :: rest, acc =>
-    let acc' := if acc.any (fun g => g.1 == opt)
-      then acc.map (fun g => if g.1 == opt then (g.1, g.2 ++ [(i, k)]) else g)
-      else acc ++ [(opt, [(i, k)])]
-    groupby rest acc'
+/-- `toolz.groupby(key, enumerate(operands))` on entries `(position, optimizer, keys)`: one group per optimizer
+    in first-seen order (dict insertion order), members in their original order.  Written as "take the head,
+    collect everything with the same optimizer, go on with the rest" (diffed against `toolz.groupby`). -/
+def groupbyN {κ : Type} : Nat → List (Nat × Nat × κ) → List (Nat × List (Nat × κ))
+  | 0, _ => []
+  | _, [] => []
+  | n + 1, e :: rest =>
+    (e.2.1, (e.1, e.2.2) :: (rest.filter (fun x => x.2.1 == e.2.1)).map (fun x => (x.1, x.2.2)))
+      :: groupbyN n (rest.filter (fun x => x.2.1 != e.2.1))
+
+/-- the recursion runs on ever shorter lists: the length is enough fuel -/
+def groupby {κ : Type} (l : List (Nat × Nat × κ)) : List (Nat × List (Nat × κ)) := groupbyN l.length l
 
 def enumFrom {α : Type} : Nat → List α → List (Nat × α)
   | _, [] => []
   | n, x :: xs => (n, x) :: enumFrom (n + 1) xs
 
+/-- one group of `_tune_down`: several members become an `_HLGExprGroup` that remembers their positions -/
+def toOp {κ : Type} (g : Nat × List (Nat × κ)) : Op κ :=
+  match g.2 with
+  | [(_, k)] => .single g.1 k
+  | ms => .group g.1 (ms.map Prod.fst) (ms.map Prod.snd)
+
 /-- `_tune_down`: `none` = unchanged (a single operand, or no optimizer shared by two operands) -/
 def tuneDown {κ : Type} (operands : List (Nat × κ)) : Option (List (Op κ)) :=
   if operands.length = 1 then none
   else
-    let groups := groupby (enumFrom 0 operands) []
-    if groups.any (fun g => g.2.length > 1) then
-      some (groups.map (fun g =>
-        match g.2 with
-        | [(_, k)] => Op.single g.1 k
-        | ms => Op.group g.1 (ms.map Prod.fst) (ms.map Prod.snd)))
-    else none
+    let groups := groupby (enumFrom 0 operands)
+    if groups.any (fun g => g.2.length > 1) then some (groups.map toOp) else none
 
 /-- the flat list `(position | None, keys)` built by the first loop of `__dask_keys__` -/
 def flatKeys {κ : Type} : List (Op κ) → List (Option Nat × κ)
